@@ -97,6 +97,7 @@ struct FamilySpec {
         if (kind == "density") s += ":rep=" + std::to_string(rep) + ":w=" + std::to_string(width) + ":word=" + std::to_string(word) + ":seam=" + std::to_string(seam) + (top ? ":top=" + std::to_string(top) : "");
         else if (kind == "chunktail") s += ":rep=" + std::to_string(rep) + ":w=" + std::to_string(width) + ":word=" + std::to_string(word) + (n ? ":n=" + std::to_string(n) : "");
         else if (kind == "longrun") s += ":n=" + std::to_string(n) + ":seam=" + std::to_string(seam) + ":rep=" + std::to_string(rep) + ":w=" + std::to_string(width) + ":word=" + std::to_string(word);
+        else if (kind == "stretch") s += ":rep=" + std::to_string(rep) + ":n=" + std::to_string(n) + ":w=" + std::to_string(width);
         else if (kind == "capacity") s += ":rep=" + std::to_string(rep) + ":n=" + std::to_string(n) + ":word=" + std::to_string(word);
         else if (kind == "span") s += ":rep=" + std::to_string(rep) + ":w=" + std::to_string(width) + ":word=" + std::to_string(word);
         else if (kind == "seam") s += ":n=" + std::to_string(n) + ":seam=" + std::to_string(seam) + ":w=" + std::to_string(width) + ":word=" + std::to_string(word);
@@ -247,6 +248,25 @@ template<typename K> bool generate_family(const FamilySpec &f, size_t eps, std::
             for (int j = 0; j < 15; ++j) { keys.push_back(far + W(j) * 50000000); focus.push_back(keys.size() - 1); }
             cur = keys.back();
         }
+        if (cur > hi) return false;
+    } else if (f.kind == "stretch") {
+        // `rep` clusters (one segment each), one run of `n` consecutive keys (a single segment covering `n` positions), `width` more
+        // clusters: among tens of thousands of evenly advancing intercepts one jumps by `n`, so the succinct structures over the
+        // intercepts hold a block of 4096 entries that spans far more bits than the others.
+        long csz = 2 * long(eps) + 2; W cur = 1000;
+        const W mult[4] = {1, 2, 4, 8};
+        auto cluster = [&](long c, long total) {
+            size_t first_pos = keys.size();
+            for (long j = 0; j < csz; ++j) { cur += 1; keys.push_back(cur); }
+            cur += 10 * csz * mult[(c / 300) % 4];
+            if (c < 3 || c + 3 >= total || c % 997 == 0) { focus.push_back(first_pos); focus.push_back(first_pos + size_t(csz) - 1); }
+        };
+        for (long c = 0; c < f.rep; ++c) cluster(c, f.rep);
+        size_t s0 = keys.size();
+        for (long j = 0; j < f.n; ++j) { cur += 1; keys.push_back(cur); }
+        for (size_t pos : {s0, s0 + 1, s0 + size_t(f.n) / 2, s0 + size_t(f.n) - 2, s0 + size_t(f.n) - 1}) if (pos < keys.size()) focus.push_back(pos);
+        cur += 1000;
+        for (long c = 0; c < f.width; ++c) cluster(c, f.width);
         if (cur > hi) return false;
     } else if (f.kind == "capacity") {
         // `rep` clusters of `n` (default eps^2 + 1) consecutive keys, one bottom segment each, so that the number of segments sits just
